@@ -234,7 +234,7 @@ def check(ctx, case):
 
 def shard_main(ctx):
     from hypothesis import given
-    n = {"quick": 600, "thorough": 10000}[ctx.tier]
+    n = {"quick": 1400, "thorough": 20000}[ctx.tier]
 
     @given(cases())
     def test(case):
